@@ -61,3 +61,8 @@ fn shim_u16_from_be(buf: &[u8]) -> (r: u16)
     requires buf@.len() == 2,
     ensures r == (buf@[0] as u16 * 256 + buf@[1] as u16) as u16,
 { u16::from_be_bytes(buf.try_into().unwrap()) }
+
+/// `<[T]>::swap` (std): exchanges two elements, everything else unchanged
+pub assume_specification<T> [ <[T]>::swap ] (s: &mut [T], a: usize, b: usize)
+    requires a < old(s)@.len(), b < old(s)@.len(),
+    ensures final(s)@ == old(s)@.update(a as int, old(s)@[b as int]).update(b as int, old(s)@[a as int]);
